@@ -32,8 +32,8 @@ TOLERANCES = {
 }
 ASSUMPTIONS = ["axis orientation table of vf/oracles/coords.py (pinned by the baseline tests)"]
 FLOORS = {
-    "quick": {"contract:coordinate": 5000, "contract:voxel": 5000, "inverse_exact": 100000, "typed_roundtrip": 2000, "voxel0_is_origin_after_origin_change": 100},
-    "thorough": {"contract:coordinate": 50000, "contract:voxel": 50000, "inverse_exact": 1000000, "typed_roundtrip": 20000, "voxel0_is_origin_after_origin_change": 1000},
+    "quick": {"contract:coordinate": 5000, "contract:voxel": 5000, "inverse_exact": 100000, "typed_roundtrip": 2000, "voxel0_is_origin_after_origin_change": 100, "sibling_images": 300},
+    "thorough": {"contract:coordinate": 50000, "contract:voxel": 50000, "inverse_exact": 1000000, "typed_roundtrip": 20000, "voxel0_is_origin_after_origin_change": 1000, "sibling_images": 3000},
 }
 OFFSETS = [1e-6, 0.25, 0.5, 1 - 1e-6]
 
@@ -232,6 +232,29 @@ def run_shard(spec, R):
             hmeta2 = (dim, shape, dims2, [float(x) for x in np.asarray(hist.origin)])
             judge_forward(R, hmeta2, hv, hist.coordinatesystem.coordinate(hv), "forward_after_dimension_change")
             R.check(np.allclose(np.asarray(hist.voxel_size, float), CO.voxel_size(shape, dims2), rtol=4 * eps, atol=0), "voxel_size_after_dimension_change", hcase)
+
+        # ---- sibling image objects: same array shape (and, for one of them, same dimensions) placed elsewhere or
+        # sized differently, built while this image's coordinate system is alive; each is judged on its own metadata
+        # and this image's system once more afterwards
+        if n % 4 == 2:
+            md = img.metadata()
+            o2 = [float(x) for x in (np.asarray(origin) + rng.uniform(-3, 3, size=dim) * np.array(dims[::-1] if dim > 1 else dims))]
+            d2 = [float(d * rng.uniform(0.5, 2.0)) for d in dims]
+            sv = np.array(list(itertools.product(*[range(-1, s + 1) for s in shape])), dtype=int)
+            for label, mo, mdims in (("moved", o2, dims), ("resized", [float(x) for x in origin], d2), ("moved_and_resized", o2, d2)):
+                md2 = dict(md)
+                md2["origin"] = darsia.Coordinate(np.array(mo))
+                md2["dimensions"] = list(mdims)
+                ok, sib = R.guarded("sibling_image", lambda: type(img)(img.img.copy(), **md2))
+                if not ok:
+                    continue
+                smeta = (dim, shape, list(mdims), mo)
+                judge_forward(R, smeta, sv, sib.coordinatesystem.coordinate(sv), f"forward_sibling_{label}")
+                sp = CO.coordinate(dim, shape, list(mdims), mo, sv + 0.5)
+                judge_inverse(R, smeta, sp, sib.coordinatesystem.voxel(sp), f"inverse_sibling_{label}")
+                judge_forward(R, meta, sv, cs.coordinate(sv), "forward_after_sibling")
+                judge_forward(R, meta, sv, img.coordinatesystem.coordinate(sv), "forward_after_sibling")
+                R.count("sibling_images")
 
         # ---- forward map: every voxel + halo, batch and single, raw and typed
         halo = 2
